@@ -26,6 +26,11 @@ class Unmodelled(PathAbort):
     """The code reached an operation the engine has no model for; the path is inconclusive."""
 
 
+class NaNProduced(ArithmeticError):
+    """A NaN/Inf-producing operation (numpy would continue with nan and a RuntimeWarning). An ordinary exception so
+    that harnesses can map it to the library's observable behaviour at that point."""
+
+
 class BoundExceeded(PathAbort):
     """An unwinding bound was hit (reported, never swallowed)."""
 
@@ -109,6 +114,8 @@ class Ctx:
         self.memo = {}           # ("sqrt"|"inv"|uf, key) -> generator index
         self.sqrt_rad = {}       # generator index -> radicand R
         self.inv_den = {}        # generator index -> polynomial D with g*D == 1
+        self.axiom_hooks = []    # callables (ctx, name, arg, generator) run when an uninterpreted application is created
+        self._in_hook = False
         self.uf_apps = []        # (name, arg R, generator)
         self.angles = {}         # generator index -> AngleInfo
         self.cons = []           # [(z3 expr, frozenset(var names))]
@@ -685,6 +692,9 @@ class R:
             if c < 0:
                 raise Unmodelled("fractional power of a negative number")
             return R(float(c) ** float(k))
+        kf = Fraction(k).limit_denominator(10 ** 6) if not isinstance(k, Fraction) else k
+        if kf.numerator == 1 and kf.denominator > 1 and abs(float(kf) - float(k)) < 1e-15:
+            return _root(s, kf.denominator)
         return _pow_uf(s, R(k))
 
     def __rpow__(s, base):
@@ -952,8 +962,11 @@ class R:
         c = s.concrete()
         if c is not None:
             if c <= 0:
-                raise Unmodelled("log of non-positive")
+                raise NaNProduced("log of a non-positive number")
             return R(math.log(float(c)))
+        if s.sign_syntactic() != 1:
+            if not Ctx.cur.branch(s.z() > 0):
+                raise NaNProduced("log of a non-positive number")
         return _uf("LOG", s)
 
     def log10(s):
@@ -985,6 +998,27 @@ _OPS = {
 
 def _key(r):
     return frozenset(r.p.items())
+
+
+def _root(base, m):
+    """base ** (1/m) for a symbolic base: fresh g > 0 with g^m == base (forks on base > 0)"""
+    ctx = Ctx.cur
+    key = ("ROOT", m, _key(base))
+    g = ctx.memo.get(key)
+    if g is None:
+        if base.sign_syntactic() != 1:
+            if not ctx.branch(base.z() > 0):
+                raise Unmodelled("fractional power of a non-positive symbolic number (numpy would give nan)")
+        g = ctx.new_gen(f"root{m}!{len(ctx.names)}", positive=True)
+        x = ctx.zv[g]
+        pw = x
+        for _ in range(m - 1):
+            pw = pw * x
+        ctx.add(z3.And(x > 0, pw == base.z()))
+        ctx.memo[key] = g
+        ctx.uf_apps.append(("ROOT", (base, m), g))
+        _run_hooks(ctx, "ROOT", (base, m), g)
+    return R.gen(g)
 
 
 def _trig_pair(arg):
@@ -1028,7 +1062,13 @@ def _uf(name, arg):
             if n2 == name:
                 ctx.add(z3.Implies(arg.z() == a2.z(), ctx.zv[g] == ctx.zv[g2]))
         ctx.uf_apps.append((name, arg, g))
+        _run_hooks(ctx, name, arg, g)
     return R.gen(g)
+
+
+def _run_hooks(ctx, name, arg, g):
+    for h in list(ctx.axiom_hooks):
+        h(ctx, name, arg, g)
 
 
 def _pow_uf(base, expo):
@@ -1048,6 +1088,7 @@ def _pow_uf(base, expo):
             if n2 == "POW":
                 ctx.add(z3.Implies(z3.And(base.z() == a2[0].z(), expo.z() == a2[1].z()), ctx.zv[g] == ctx.zv[g2]))
         ctx.uf_apps.append(("POW", (base, expo), g))
+        _run_hooks(ctx, "POW", (base, expo), g)
     return R.gen(g)
 
 
